@@ -89,13 +89,19 @@ structure World where
   read : Text → Option Text
   nodes : Text → List Node
 
+/-- first loop of `parse_blocks`: walked files that are allowed and not ignored (only when scanning) -/
+def walkedFiles (w : World) (scan : Bool) : List Text :=
+  if scan then w.walk.filter (fun p => w.allow p && !w.ignore p) else []
+
+/-- second loop: the diff's files that were not taken by the first loop and are not ignored -/
+def restChanges (w : World) (changes : List (Text × List LC)) (scan : Bool) : List (Text × List LC) :=
+  changes.filter (fun c => !(walkedFiles w scan).any (pathEq c.1) && !w.ignore c.1)
+
 /-- the files `parse_blocks` examines, with their change lists and filters:
     walked ∩ allowed ∖ ignored (all blocks), then the remaining diff files ∖ ignored (modified only) -/
 def scope (w : World) (changes : List (Text × List LC)) (scan : Bool) : List (Text × List LC × Bool) :=
-  let walked := if scan then w.walk.filter (fun p => w.allow p && !w.ignore p) else []
-  let first := walked.map (fun p => (p, ((changes.find? (fun c => pathEq c.1 p)).map (·.2)).getD [], true))
-  let rest := changes.filter (fun c => !walked.any (pathEq c.1) && !w.ignore c.1)
-  first ++ rest.map (fun c => (c.1, c.2, false))
+  (walkedFiles w scan).map (fun p => (p, ((changes.find? (fun c => pathEq c.1 p)).map (·.2)).getD [], true)) ++
+  (restChanges w changes scan).map (fun c => (c.1, c.2, false))
 
 /-- `parse_blocks`: per-file results; files without blocks are dropped; any error aborts -/
 def parseBlocks (cfg : Cfg) (extra : List (Text × Text)) (w : World) (changes : List (Text × List LC)) (scan : Bool) :
@@ -150,6 +156,11 @@ def checkBlock (re : Regex) (oracle : AsyncOracle) (v : String) (f : FileCtx) (b
       | .ok sev => .ok (some (tagDiag "check-ai" b.block sev data))
   | _, _ => .ok none
 
+/-- `named_modified_blocks.contains_key(&(file, name))`: some block of that file with that name has modified content -/
+def hasModified (ctx : List FileCtx) (target name : Text) : Bool :=
+  ctx.any (fun g => pathEq g.path target &&
+    g.blocks.any (fun c => c.contentMod && attrGet c.block.attrs "name".toList = some name))
+
 /-- `AffectsValidator::validate`: one diagnostic per reference without a modified block of that name -/
 def affectsFile (ctx : List FileCtx) (f : FileCtx) : List (Except ErrKind (List Diag)) :=
   f.blocks.map (fun b =>
@@ -160,10 +171,7 @@ def affectsFile (ctx : List FileCtx) (f : FileCtx) : List (Except ErrKind (List 
       match parseAffects a with
       | .error e => .error e
       | .ok refs =>
-        let missing := refs.filter (fun (fp, name) =>
-          let target := fp.getD f.path
-          !ctx.any (fun g => pathEq g.path target &&
-            g.blocks.any (fun c => c.contentMod && attrGet c.block.attrs "name".toList = some name)))
+        let missing := refs.filter (fun (fp, name) => !hasModified ctx (fp.getD f.path) name)
         missing.mapM (fun (fp, name) =>
           match severityOf b.block.attrs with
           | .error e => .error e
@@ -193,12 +201,20 @@ inductive RunOut where
   | err (kinds : List ErrKind)
 deriving Repr
 
+/-- every per-block outcome of every detected validator, tagged with the file -/
+def runResults (re : Regex) (oracle : AsyncOracle) (ctx : List FileCtx) (enabled disabled : List String) :
+    List (Text × Except ErrKind (List Diag)) :=
+  ((detected ctx enabled disabled).map (validatorResults re oracle ctx)).flatten
+
+def resultErrors (rs : List (Text × Except ErrKind (List Diag))) : List ErrKind :=
+  rs.filterMap (fun r => match r.2 with | .error e => some e | .ok _ => none)
+
+def resultDiags (rs : List (Text × Except ErrKind (List Diag))) : List (Text × Diag) :=
+  (rs.map (fun r => match r.2 with | .ok ds => ds.map (fun d => (r.1, d)) | .error _ => [])).flatten
+
 def run (re : Regex) (oracle : AsyncOracle) (ctx : List FileCtx) (enabled disabled : List String) : RunOut :=
-  let rs := ((detected ctx enabled disabled).map (validatorResults re oracle ctx)).flatten
-  let errs := rs.filterMap (fun r => match r.2 with | .error e => some e | .ok _ => none)
-  if errs.isEmpty then
-    .ok (rs.map (fun r => match r.2 with | .ok ds => ds.map (fun d => (r.1, d)) | .error _ => [])).flatten
-  else .err errs.eraseDups
+  let rs := runResults re oracle ctx enabled disabled
+  if (resultErrors rs).isEmpty then .ok (resultDiags rs) else .err (resultErrors rs).eraseDups
 
 /-- exit status of `main` after `run` -/
 def exitCode : RunOut → Nat
